@@ -201,10 +201,9 @@ class C16(Property):
         yield case['type']
 
     @classmethod
-    def in_statement(cls, case):
-        """texts the property statement speaks about (exotic line separators and any message allowed)"""
+    def _shape_ok(cls, case, lineno_re):
         for file, lineno, func, src, anchor in case['frames']:
-            if not file or not re.fullmatch(r'\d+', lineno):
+            if not file or not re.fullmatch(lineno_re, lineno):
                 return False
             if not func or func[-1].isspace() or TAIL_RE.search(func):
                 return False
@@ -218,6 +217,12 @@ class C16(Property):
         return not any('\n' in f or '\r' in f for f in cls._single_line_fields(case))
 
     @classmethod
+    def in_statement(cls, case):
+        """texts the property statement speaks about: line numbers as the interpreter prints them (ASCII decimal
+        without leading zeros); exotic line separators and any message are allowed here (known findings)"""
+        return cls._shape_ok(case, r'0|[1-9][0-9]*')
+
+    @classmethod
     def has_exotic(cls, case):
         return any(c in f for f in list(cls._single_line_fields(case)) + [case['msg']] for c in EXOTIC)
 
@@ -229,7 +234,7 @@ class C16(Property):
     @classmethod
     def wf_case(cls, case):
         """python mirror of the Lean predicate WFtextA (cross-checked against the driver on every case)"""
-        return (cls.in_statement(case) and not cls.has_exotic(case) and not case['msg'].endswith('\n')
+        return (cls._shape_ok(case, r'\d+') and not cls.has_exotic(case) and not case['msg'].endswith('\n')
                 and not cls.last_line_is_trailer(case))
 
     # ------------------------------------------------------------------ generation: texts
@@ -376,8 +381,8 @@ class C16(Property):
             yield {'k': 'r', 'text': t}
         for c in self.small_texts():
             yield c
-        n_live = 1500 if self.thorough else 260
-        n_rand = 150000 if self.thorough else 5000
+        n_live = 3000 if self.thorough else 400
+        n_rand = 200000 if self.thorough else 12000
         live_every = max(1, n_rand // n_live)
         for i in range(n_rand):
             c = self.random_text_case()
@@ -692,7 +697,8 @@ class C16(Property):
             out = 'ok n=%d %s | %s %s | %s | %s' % (len(obs['frames']), fr, hx(obs['type']), hx(obs['msg']), s,
                                                     h(obs['source_file']))
         if k == 't':
-            out += ' | wf=%d gen=1' % (1 if self.wf_case(case) else 0)
+            # wfc: the model's text-level predicate WFtext accepts every text generated from well-formed data
+            out += ' | wf=%d gen=1 wfc=1' % (1 if self.wf_case(case) else 0)
         return out
 
     # ------------------------------------------------------------------ oracle (independent of the model)
@@ -724,7 +730,8 @@ class C16(Property):
             if 'exc' in obs:
                 return Failure('raises', 'from_string raised %s on %r' % (obs['exc'], text[:300]))
             want = [[f[0], f[1], f[2], f[3] or ''] for f in case['frames']]
-            if obs['frames'] != want:
+            got = [[f[0], str(f[1]), f[2], f[3]] for f in obs['frames']]      # a line number may be a str or an int
+            if got != want:
                 return Failure('fields', 'frames parsed as %r, text says %r' % (obs['frames'], want))
             if obs['type'] != case['type'] or obs['msg'] != case['msg']:
                 return Failure('fields', 'exception parsed as (%r, %r), text says (%r, %r)'
@@ -767,7 +774,7 @@ class C16(Property):
         # the interpreter's own text through the parser (first clause on real texts)
         p = obs['parsed']
         want = [[a, str(b), c, d.strip()] for a, b, c, d in obs['std_frames']]
-        if p['frames'] != want or p['type'] != obs['std_type'] or p['msg'] != obs['std_msg']:
+        if [[f[0], str(f[1]), f[2], f[3]] for f in p['frames']] != want or p['type'] != obs['std_type'] or p['msg'] != obs['std_msg']:
             return Failure('parse_std', 'interpreter text %r parsed as %r' % (obs['std_full'], p))
         if p['str'] + '\n' != std:
             return Failure('parse_std', 'to_string() of the parsed interpreter text = %r, text = %r' % (p['str'], std))
@@ -784,7 +791,7 @@ class C16(Property):
     def finding_exotic_line_separators(self, case, failure):
         """a field of the text contains a str.splitlines separator other than '\\n' (from_string splits there, to_string
         joins with '\\n'); matched only while the implementation behaves exactly like the verified model"""
-        if failure.model_agrees is False:
+        if getattr(failure, 'model_agrees', None) is False:
             return False
         if case['k'] == 't':
             return failure.tag in ('fields', 'roundtrip') and self.in_statement(case) and self.has_exotic(case)
@@ -794,7 +801,7 @@ class C16(Property):
 
     def finding_message_trailing_newline(self, case, failure):
         """the message ends in a newline: indistinguishable from the interpreter's final newline, dropped by from_string"""
-        if failure.model_agrees is False:
+        if getattr(failure, 'model_agrees', None) is False:
             return False
         if case['k'] == 't':
             return (failure.tag in ('fields', 'roundtrip') and self.in_statement(case) and not self.has_exotic(case)
@@ -806,7 +813,7 @@ class C16(Property):
 
     def finding_trailer_line_in_message(self, case, failure):
         """the last line of a multi-line message has the form 'Exception ... ignored' and is popped as a trailer"""
-        if failure.model_agrees is False or failure.tag not in ('fields', 'roundtrip') or case['k'] != 't':
+        if getattr(failure, 'model_agrees', None) is False or failure.tag not in ('fields', 'roundtrip') or case['k'] != 't':
             return False
         return (self.in_statement(case) and not self.has_exotic(case) and not case['msg'].endswith('\n')
                 and self.last_line_is_trailer(case))
@@ -814,7 +821,7 @@ class C16(Property):
     def finding_recursion_collapse(self, case, failure):
         """live kind: the interpreter collapses more than 3 identical consecutive entries into
         '[Previous line repeated N more times]'; boltons prints (and cannot parse) no such line"""
-        if failure.model_agrees is False or case['k'] != 'l' or failure.tag not in ('format', 'parse_std'):
+        if getattr(failure, 'model_agrees', None) is False or case['k'] != 'l' or failure.tag not in ('format', 'parse_std'):
             return False
         obs = self._live_obs(case)
         if 'std' not in obs or '  [Previous line repeated ' not in obs['std']:
